@@ -105,7 +105,27 @@ def observe_problem(P):
         except (AbsError, AttributeError, TypeError):
             return sexp.read(e.to_pddl())
     numgoals = sorted(sexp.dumps(norm(canon_cmp(goal_tree(e)))) for e in P.goal_state_fluents)
-    return {"name": P.name, "objects": objs, "atoms": atoms, "fluents": fl, "goals": goals, "numgoals": numgoals}
+    # second reading of the fluent terms inside the numeric goals: each leaf's own public text (name and arguments)
+    terms = []
+    for e in P.goal_state_fluents:
+        stack = [e.root]
+        while stack:
+            n = stack.pop()
+            if n.is_leaf and hasattr(n.value, "untyped_representation"):
+                terms.append(sexp.dumps(sexp.read(n.value.untyped_representation)))
+            stack.extend(n.children)
+    return {"name": P.name, "objects": objs, "atoms": atoms, "fluents": fl, "goals": goals, "numgoals": numgoals,
+            "numgoal_terms": sorted(terms)}
+
+
+def _terms_of(tree, out):
+    if isinstance(tree, list) and tree:
+        if tree[0] in ("=", "<", ">", "<=", ">=", "+", "-", "*", "/"):
+            for x in tree[1:]:
+                _terms_of(x, out)
+        else:
+            out.append(sexp.dumps(tree))
+    return out
 
 
 def expected(v):
@@ -113,7 +133,8 @@ def expected(v):
             "atoms": {tuple(a) for a in v["atoms"]},
             "fluents": {tuple(k.split(" ")): num(n) for k, n in v["fluents"].items()},
             "goals": [tuple(a) for a in v["goals"]],
-            "numgoals": sorted(sexp.dumps(norm(canon_cmp(sexp.read(g)))) for g in v["numgoals"])}
+            "numgoals": sorted(sexp.dumps(norm(canon_cmp(sexp.read(g)))) for g in v["numgoals"]),
+            "numgoal_terms": sorted(t for g in v["numgoals"] for t in _terms_of(sexp.read(g), []))}
 
 
 def compare(want, got):
@@ -132,6 +153,10 @@ def compare(want, got):
         out.append(("goal-literals", f"goal atoms {got['goals']} != {want['goals']}"))
     if got["numgoals"] != want["numgoals"]:
         out.append(("numeric-goals", f"numeric goals {got['numgoals']} != {want['numgoals']}"))
+    elif got.get("numgoal_terms") is not None and want.get("numgoal_terms") is not None \
+            and got["numgoal_terms"] != want["numgoal_terms"]:
+        out.append(("numeric-goals", f"fluent terms inside the numeric goals read {got['numgoal_terms']} (each leaf's own text), "
+                    f"expected {want['numgoal_terms']}"))
     return out
 
 
